@@ -25,5 +25,5 @@ def run(ctx):
                                                         coverage=(sub.cov or {}).get("agree") if isinstance(sub.cov, dict) else None)
         finally:
             sub.cleanup()
-    except vf.Inconclusive as e:
-        ctx.notes.append("schema agreement wait not evaluated in this run: %s" % str(e)[:300])
+    except Exception as e:      # incl. vf.Inconclusive: the connection-level verdict above stands on its own
+        ctx.notes.append("schema agreement wait not evaluated in this run: %s: %s" % (type(e).__name__, str(e)[:300]))
